@@ -506,13 +506,16 @@ func EFXReadOnlyTargets(c *Ctx, cfg string, an *efx.Analyzer) {
 // operands at once) no operand data may be read after the receiver has been
 // written (context-sensitively through the callees that receive aliased
 // arguments).
-func EFXAlias(c *Ctx, cfg string, an *efx.Analyzer) {
+func EFXAlias(c *Ctx, cfg string, an *efx.Analyzer) { EFXAliasKinds(c, cfg, an, "") }
+
+// EFXAliasKinds restricts the aliasing scenarios to one kind of implementation ("scalar", "point"; "" = both).
+func EFXAliasKinds(c *Ctx, cfg string, an *efx.Analyzer, kind string) {
 	p := c.Prog(cfg)
 	if p == nil {
 		return
 	}
 	for _, it := range c.implTypes(p) {
-		if it.Kind == "xof" {
+		if it.Kind == "xof" || kind != "" && it.Kind != kind {
 			continue
 		}
 		muts := pointMutators
